@@ -33,6 +33,21 @@ def Elem.copyOps : Elem → Bool
   | .u32 | .wide => true
   | _ => false
 
+/-- `<end>` of a drain line: `fold` / `rfold` consume the drain **by value** through `Iterator::fold` / `DoubleEndedIterator::rfold`
+    (what `for_each`, `count`, `last`, `sum`, `rev().for_each` … call; std's defaults are loops over `next` / `next_back`), reporting
+    how many items came out; the harness then drops those items front to back.  Observationally that is "`len()`, then drop the
+    drain" (a drain drops what is left front to back): the line is rewritten to that form before the model and the oracle see it. -/
+def normDrainEnd (line : String) : String :=
+  let ws := line.splitOn " "
+  match ws.getLast? with
+  | some fin =>
+    if (fin = "fold" ∨ fin = "rfold") ∧ ["remove_row", "remove_col", "pop_row", "pop_col"].contains (ws.getD 1 "") ∧ ws.length ≥ 4 then
+      let word := ws.getD (ws.length - 2) "-"
+      let word' := if word = "-" then "l" else word ++ ",l"
+      " ".intercalate (ws.take (ws.length - 2) ++ [word', "drop"])
+    else line
+  | none => line
+
 /-- kinds with a drop ledger -/
 def Elem.ledgered : Elem → Bool
   | .cell | .zst | .widecell => true
